@@ -526,3 +526,4 @@ add("C07", lambda tier: [stop_job(0, tier, F=1), stop_job(3, tier)])
 add("C08", lambda tier: [stop_job(2, tier, F=1)])
 add("C05", lambda tier: [unit_job(6, "sink_string")])
 add("C02", lambda tier: start_jobs(tier, 1, F=0, types=(1,)))
+add("C14", lambda tier: start_jobs(tier, 0, types=(1,)))
